@@ -137,6 +137,10 @@ CONTRACTS += c15_uri.CONTRACTS
 from contracts import misc_quick as _mq  # noqa: E402
 
 CONTRACTS += [_mq.adapt_uri, _mq.otp_type]
+from contracts import c13 as _c13  # noqa: E402
+
+CONTRACTS += [c for c in _c13.CONTRACTS if c.id == "TOTP.key (setter)"]  # same key => same codes: nothing derived from an old key survives
+
 BOUNDED = [Bounded("c15", "harness/c15.py", descr="round trips through uri/json/dict over hostile labels and class defaults; corrupted sources", timeout=900)]
 
 MUTANTS = [
